@@ -152,7 +152,7 @@ class Script:
 
     def newkey(self):
         self.nkey += 1
-        assert self.nkey < 250
+        assert self.nkey < 1000
         return self.nkey - 1
 
     def newsig(self):
